@@ -4,11 +4,19 @@
 //   radix_encode_limbs_to_string (stack / heap buffer selection), Uint::to_string_radix_vartime, Uint::as_limbs_mut,
 //   RadixDivisionParams::encoded_size, RadixDivisionParams::for_radix (table lookup `radix + leading_zeros - 33`, over the ASSUMED table ALL()),
 //   radix_large_divisor (result == radix^digits, largest such power that fits 32 limbs, top limb non-zero);
+//   RadixDivisionParams::encode_limbs (out == the out.len() low-order digits of the value, zero padded: repeated in-place division of the limb buffer by
+//     radix^digits_limb through the reciprocal (shift left, div2by1 from the top limb down, top quotient limb carried in `hi` when it is < d >> shift), digits written
+//     from the least significant end; above 32 limbs: division by radix^digits_large = div_large and recursion on the 32-limb remainder);
+//   radix_encode_limbs_by_shifting (power-of-two radixes: same contract; extra precondition for the u32 bit counter, see the region) -- extracted through
+//     rewrite R13 (`for limb in limbs.iter().chain([&Limb::ZERO])` peeled into the loop over `limbs` plus one more copy of the body for the zero limb);
 //   lemma_radix_roundtrip: numeral_val(canon_numeral(v, r), r) == Some(v) (parse . format == id at the level of the two contracts),
-//   lemma_canon_digits (no leading zero, no separators), lemma_strip_zeros, lemma_size_pow2 / lemma_size_div.
-// stub (ASSUMED, exact contracts): RadixDivisionParams::encode_limbs and radix_encode_limbs_by_shifting (out == the out.len() low-order digits of
-//   the value, zero padded). by_shifting iterates `limbs.iter().chain([&Limb::ZERO])` (core::iter::Chain: no vstd spec, `chain` is a provided
-//   trait method and cannot be given one); encode_limbs needs `PartialEq` / `PartialOrd` / `BitOrAssign for Limb` (in no unit yet).
+//   lemma_canon_digits (no leading zero, no separators), lemma_strip_zeros, lemma_size_pow2 / lemma_size_div,
+//   lemma_digits_fixed_split / _mod / _prepend, lemma_block_step (digits of v = digits of v / r^k ++ k digits of v mod r^k).
+// FINDING (fixed in /repo 96d9f18): encode_limbs tested `limbs[limb_count - 1] << lshift < div_limb` to decide whether the top quotient limb can be carried in `hi`;
+//   `Limb << lshift` drops the high bits, so a limb >= 2^(64 - lshift) could pass, and the next round's `hi << lshift` lost its high bits: wrong numeral for odd
+//   radixes with lshift >= 1 (e.g. radix 7, Uint<28> value ((7^22 - 1) / 4 * 2^64 + 2^64 - 1) * 7^(22*27)); found because the loop invariant
+//   `hi * 2^shift + 2^shift <= d` could not be established. The proof holds for the repaired test `limbs[limb_count - 1] < div_limb >> lshift`.
+// `RadixDivisionParams::wf()` now also states `divisor_normalized == dv() * 2^shift` (exact normalisation; part of the ASSUMED contents of ALL()).
 // assumed library specs: u32::is_power_of_two, String::from_utf8 (+ FromUtf8Error), usize::div_ceil (l4_safegcd); shims vec_prefix_mut
 //   (= `&mut vec[..n]`), vec_all_mut (= `&mut vec[..]`); hand-declared table `RadixDivisionParams::ALL()` (stands for `const ALL`, not mirrored).
 use vstd::prelude::*;
@@ -20,6 +28,7 @@ use vstd::string::*;
 use vstd::std_specs::slice::*;
 use vstd::std_specs::bits::*;
 use crate::speclib::*;
+use crate::speclib_bits::*;
 use crate::l0_prim::*;
 use crate::l1_choice::*;
 use crate::l1_limb::*;
@@ -27,6 +36,11 @@ use crate::l2_core::*;
 use crate::l2_encoding_radix::*;
 use crate::l3_divlimb::*;
 use crate::l7_boxed_div::*;
+use crate::l2_subtle::*;
+use crate::l7_traits::*;
+use crate::l8_boxed_methods::*;
+#[allow(unused_imports)]
+use crate::l2_encoding_enc2::*;   // PartialEq / PartialOrd / BitOrAssign for Limb (used by encode_limbs)
 #[allow(unused_imports)]
 use crate::l4_safegcd::*;   // holds the assumed specification of `usize::div_ceil` (one per crate)
 verus! {
@@ -73,6 +87,7 @@ impl RadixDivisionParams {
         &&& 3 <= r <= 36 && !is_pow2_radix(r)
         &&& 1 <= self.digits_limb <= 63 && pow(r, self.digits_limb as nat) <= u64::MAX < pow(r, (self.digits_limb + 1) as nat)
         &&& self.reciprocal.wf() && self.reciprocal.dv() == pow(r, self.digits_limb as nat)
+        &&& self.reciprocal.divisor_normalized as int == self.reciprocal.dv() * p2(self.reciprocal.shift as nat)
         &&& val(self.div_large@, 32) == pow(r, self.digits_large as nat) && self.div_large@[31].0 != 0
         &&& val(self.div_large@, 32) * r >= bp(32)
     }
@@ -304,30 +319,811 @@ pub const fn for_radix(radix: u32) -> (ret__: Self)
     }
 }
 //@@ end
-//@@ fn src/uint/encoding.rs | impl RadixDivisionParams | encode_limbs | stub | props C17 C11
+// ---------------------------------------------------------------- digits_fixed under division
+proof fn lemma_pow_r_pos(r: int, n: nat)
+    requires r >= 2
+    ensures pow(r, n) >= 1, pow(r, n + 1) == r * pow(r, n), pow(r, 0) == 1
+{ lemma_pow_positive(r, n); reveal(pow); lemma_pow0(r); }
+
+/// digits_fixed(v, r, a + b) == digits_fixed(v / r^b, r, a) ++ digits_fixed(v, r, b)
+pub proof fn lemma_digits_fixed_split(v: nat, r: int, a: nat, b: nat)
+    requires r >= 2
+    ensures digits_fixed(v, r, a + b) =~= digits_fixed((v as int / pow(r, b)) as nat, r, a) + digits_fixed(v, r, b), pow(r, b) >= 1
+    decreases b
+{
+    lemma_pow_r_pos(r, b);
+    let rn = r as nat;
+    if b == 0 {
+        assert(v as int / 1 == v);
+    } else {
+        let b1 = (b - 1) as nat;
+        let v1 = (v / rn) as nat;
+        lemma_pow_r_pos(r, b1);
+        lemma_digits_fixed_split(v1, r, a, b1);
+        lemma_div_denominator(v as int, r, pow(r, b1));
+        assert(v1 as int == v as int / r);
+        assert(v1 as int / pow(r, b1) == v as int / pow(r, b));
+        let c0 = digit_char((v % rn) as int);
+        assert(digits_fixed(v, r, a + b) == digits_fixed(v1, r, (a + b - 1) as nat).push(c0));
+        assert(digits_fixed(v, r, b) == digits_fixed(v1, r, b1).push(c0));
+        assert((a + b - 1) as nat == a + b1);
+    }
+}
+
+/// the k low-order digits depend only on v mod r^m (k <= m)
+pub proof fn lemma_digits_fixed_mod(v: nat, r: int, k: nat, m: nat)
+    requires r >= 2, k <= m
+    ensures pow(r, m) >= 1, digits_fixed(v, r, k) == digits_fixed((v as int % pow(r, m)) as nat, r, k)
+    decreases k
+{
+    lemma_pow_r_pos(r, m);
+    if k > 0 {
+        let rn = r as nat;
+        let m1 = (m - 1) as nat; let k1 = (k - 1) as nat;
+        lemma_pow_r_pos(r, m1);
+        let pm = pow(r, m); let pm1 = pow(r, m1);
+        let w = (v as int % pm) as nat;
+        lemma_mod_bound(v as int, pm);
+        lemma_breakdown(v as int, r, pm1);
+        lemma_mod_bound(v as int / r, pm1); lemma_mod_bound(v as int, r);
+        let qh = (v as int / r) % pm1; let lo = v as int % r;
+        assert(w as int == r * qh + lo);
+        lemma_fundamental_div_mod_converse(w as int, r, qh, lo);
+        let v1 = (v / rn) as nat;
+        assert(v1 as int == v as int / r);
+        lemma_digits_fixed_mod(v1, r, k1, m1);
+        assert((w / rn) as nat == (v1 as int % pm1) as nat);
+        assert((w % rn) as int == (v % rn) as int);
+    }
+}
+
+/// one block of digits: the buffer tail holds the e low digits of v0, vc == v0 / r^e, vc == q r^m + rem with rem < r^m, and k <= m digits of rem
+/// are prepended  ==>  the tail holds the e + k low digits of v0, and q == v0 / r^(e + m)
+pub proof fn lemma_block_step(v0: nat, r: int, e: nat, vc: int, m: nat, q: int, rem: int, k: nat)
+    requires r >= 2, pow(r, e) >= 1 ==> vc == v0 as int / pow(r, e), vc == q * pow(r, m) + rem, 0 <= rem < pow(r, m), k <= m, q >= 0
+    ensures digits_fixed(rem as nat, r, k) + digits_fixed(v0, r, e) =~= digits_fixed(v0, r, k + e),
+        pow(r, e + m) >= 1, q == v0 as int / pow(r, e + m)
+{
+    lemma_pow_r_pos(r, e); lemma_pow_r_pos(r, m); lemma_pow_r_pos(r, e + m);
+    let pe = pow(r, e); let pm = pow(r, m);
+    lemma_fundamental_div_mod_converse(vc, pm, q, rem);
+    lemma_digits_fixed_split(v0, r, k, e);
+    assert(vc >= 0) by (nonlinear_arith) requires vc == q * pm + rem, q >= 0, pm >= 1, rem >= 0;
+    lemma_digits_fixed_mod(vc as nat, r, k, m);
+    lemma_div_denominator(v0 as int, pe, pm);
+    lemma_pow_adds(r, e, m);
+}
+
+/// prepending one digit
+pub proof fn lemma_digits_fixed_prepend(v: nat, r: int, i: nat)
+    requires 2 <= r <= 36
+    ensures pow(r, i) >= 1, digits_fixed(v, r, i + 1) =~= seq![digit_char((v as int / pow(r, i)) % r)] + digits_fixed(v, r, i),
+        (v as int / pow(r, i)) / r == v as int / pow(r, i + 1), 0 <= (v as int / pow(r, i)) % r < r
+{
+    lemma_pow_r_pos(r, i);
+    lemma_digits_fixed_split(v, r, 1, i);
+    let w = (v as int / pow(r, i)) as nat;
+    lemma_div_pos_is_pos(v as int, pow(r, i));
+    assert(digits_fixed(w, r, 1) =~= seq![digit_char((w % (r as nat)) as int)]) by {
+        assert(digits_fixed((w / (r as nat)) as nat, r, 0) =~= Seq::<u8>::empty());
+    }
+    lemma_div_denominator(v as int, pow(r, i), r);
+    assert(pow(r, i) * r == r * pow(r, i)) by (nonlinear_arith);
+    lemma_mod_bound(w as int, r);
+}
+
+
+// ---------------------------------------------------------------- arithmetic of one division round
+/// consequences of the parameter relations: 2^shift <= 35 < d = r^dl < B
+proof fn lemma_enc_params(r: int, dl: nat, d: int, dn: int, ps: int, shift: u32)
+    requires 3 <= r <= 36, d == pow(r, dl), pow(r, dl + 1) > u64::MAX, dn == d * ps, B() / 2 <= dn < B(), ps == p2(shift as nat), shift < 64
+    ensures 1 <= ps <= 35, ps < d, d < B(), d >= 1
+{
+    lemma_pow_r_pos(r, dl); lemma_pow2_pos(shift as nat);
+    assert(d * 36 >= B()) by (nonlinear_arith) requires r * d > u64::MAX, r <= 36, d >= 1;
+    assert(ps <= 35) by (nonlinear_arith) requires d * ps < B(), d * 36 >= B(), d >= 1, ps >= 1;
+    assert(d <= dn) by (nonlinear_arith) requires dn == d * ps, ps >= 1, d >= 1;
+}
+
+/// one limb of the left shift: ((x << s) | c) + (x >> (64 - s)) B == x 2^s + c for c < 2^s
+proof fn lemma_shl_or_step(x: u64, c: u64, s: u32)
+    requires 0 < s < 64, (c as int) < p2(s as nat)
+    ensures (((x << s) | c) as int) + ((x >> ((64 - s) as u32)) as int) * B() == x as int * p2(s as nat) + c as int,
+        ((x >> ((64 - s) as u32)) as int) < p2(s as nat)
+{
+    lemma_one_shl(s as u64);
+    let m = 1u64 << (s as u64);
+    assert(((x << s) | c) == add(x << s, c) && add(x << s, c) >= (x << s)) by (bit_vector) requires 0 < s < 64, c < (1u64 << (s as u64));
+    assert(((x << s) | c) as int == (x << s) as int + c as int) by {
+        assert(add(x << s, c) >= (x << s) ==> add(x << s, c) as int == (x << s) as int + c as int) by (bit_vector);
+    }
+    lemma_limb_shl_split(x, s);
+    assert((x >> ((64 - s) as u32)) < (1u64 << (s as u64))) by (bit_vector) requires 0 < s < 64;
+}
+
+/// `carry | (hi << s)` is hi 2^s + carry when hi 2^s + 2^s <= d < B and carry < 2^s
+proof fn lemma_hi_shl_or(hi: u64, t: u64, s: u32, d: int)
+    requires 0 < s < 64, (t as int) < p2(s as nat), hi as int * p2(s as nat) + p2(s as nat) <= d, d < B()
+    ensures ((t | (hi << s)) as int) == hi as int * p2(s as nat) + t as int
+{
+    lemma_one_shl(s as u64);
+    lemma_u64_shl_mod(hi, s);
+    lemma_small_mod((hi as int * p2(s as nat)) as nat, B() as nat);
+    let h = hi << s;
+    assert(h as int == hi as int * p2(s as nat));
+    let m = 1u64 << (s as u64);
+    assert(h as int + m as int <= u64::MAX);
+    assert((t | h) == add(h, t)) by (bit_vector) requires 0 < s < 64, t < (1u64 << (s as u64)), h == hi << s;
+    assert(add(h, t) as int == h as int + t as int) by (bit_vector) requires h <= 0xffff_ffff_ffff_ffffu64 - m, t < m;
+}
+
+proof fn lemma_tv_empty_mul2(q: Seq<Limb>, n: nat, dn: int)
+    ensures tv(q, n, n) * dn == 0
+{ assert(tv(q, n, n) == 0); assert(0 * dn == 0); }
+
+/// (copy of the private lemma_divlimb_step of l3_divlimb.rs) one step of the schoolbook loop: bring down limb j, append quotient limb qj
+proof fn lemma_divlimb_step2(qo: Seq<Limb>, qn: Seq<Limb>, us: Seq<Limb>, j: nat, n: nat, dn: int, r: int, qj: int, rj: int, total: int)
+    requires
+        j < n,
+        forall|k: int| j < k < n ==> qn[k] == qo[k],
+        qn[j as int].0 as int == qj,
+        qj * dn + rj == r * B() + us[j as int].0 as int,
+        tv(qo, j + 1, n) * dn + r * bp(j + 1) + val(us, j + 1) == total,
+    ensures
+        tv(qn, j, n) * dn + rj * bp(j) + val(us, j) == total,
+{
+    lemma_tv_ext(qo, qn, j + 1, n);
+    lemma_val_step(qn, j);
+    lemma_val_step(us, j);
+    lemma_bp_succ(j);
+    let t = tv(qo, j + 1, n); let p = bp(j); let x = us[j as int].0 as int; let b = B();
+    assert(tv(qn, j, n) == t + qj * p);
+    assert((t + qj * p) * dn + rj * p == t * dn + r * (b * p) + x * p) by (nonlinear_arith)
+        requires qj * dn + rj == r * b + x;
+}
+
+/// (copy of the private lemma_divlimb_final of l3_divlimb.rs) undo the normalisation: Q*(dv*2^s) + r == U*2^s  ==>  Q*dv + r/2^s == U
+proof fn lemma_divlimb_final2(qv: int, r: int, uv: int, dv: int, ps: int)
+    requires ps > 0, qv * (dv * ps) + r == uv * ps, 0 <= r < dv * ps
+    ensures qv * dv + r / ps == uv, 0 <= r / ps < dv
+{
+    let x = uv - qv * dv;
+    assert(x * ps == r) by (nonlinear_arith) requires x == uv - qv * dv, qv * (dv * ps) + r == uv * ps;
+    lemma_div_multiples_vanish(x, ps);
+    assert(ps * x == x * ps) by (nonlinear_arith);
+    assert(x < dv) by (nonlinear_arith) requires x * ps < dv * ps, ps > 0;
+    assert(x >= 0) by (nonlinear_arith) requires x * ps >= 0, ps > 0;
+}
+
+//@@ fn src/uint/encoding.rs | impl RadixDivisionParams | encode_limbs | body | props C17 C11
 impl RadixDivisionParams {
-#[verifier::external_body]
 pub fn encode_limbs(&self, limbs: &mut [Limb], out: &mut [u8])
 //@+
-    requires self.wf(), old(limbs)@.len() >= 1
+    requires self.wf(), old(limbs)@.len() >= 1, old(limbs)@.len() + 32 <= usize::MAX
     ensures final(out)@ == digits_fixed(val(old(limbs)@, old(limbs)@.len()) as nat, self.radix as int, old(out)@.len()),
         final(limbs)@.len() == old(limbs)@.len()
+    decreases old(limbs)@.len()
 //@-
 {
-    unimplemented!()
-}
+//@+
+    let ghost r = self.radix as int; let ghost dl = self.digits_limb as nat; let ghost d = pow(r, dl);
+    let ghost dn = self.reciprocal.divisor_normalized as int; let ghost ps = p2(self.reciprocal.shift as nat);
+    let ghost len = limbs@.len(); let ghost olen = out@.len();
+    let ghost v0 = val(limbs@, len) as nat;
+    proof { lemma_val_bound(limbs@, len); lemma_enc_params(r, dl, d, dn, ps, self.reciprocal.shift); }
+//@-
+        debug_assert!(!limbs.is_empty());
+        let radix = self.radix as Word;
+        let div_limb = self.reciprocal.divisor().0;
+        let mut limb_count = limbs.len();
+        let mut out_idx = out.len();
+//@+
+    proof { lemma_pow_r_pos(r, 0); assert(v0 as int / 1 == v0); assert(out@.subrange(out_idx as int, olen as int) =~= digits_fixed(v0, r, 0)); }
+//@-
+        if limb_count > RADIX_ENCODING_LIMBS_LARGE {
+            // Divide by the large divisor and recurse on the encoding of the digits
+            let mut remain;
+            while limb_count >= RADIX_ENCODING_LIMBS_LARGE
+//@+
+                invariant self.wf(), r == self.radix as int, limbs@.len() == len, len == old(limbs)@.len(), out@.len() == olen, limb_count <= len, out_idx <= olen, 32 < len, len + 32 <= usize::MAX,
+                    out@.subrange(out_idx as int, olen as int) == digits_fixed(v0, r, (olen - out_idx) as nat),
+                    out_idx > 0 ==> val(limbs@, limb_count as nat) == v0 as int / pow(r, (olen - out_idx) as nat),
+                decreases limb_count
+//@-
+{
+                remain = self.div_large;
+//@+
+                let ghost l0 = limbs@; let ghost lc0 = limb_count as nat; let ghost o0 = out@; let ghost e = (olen - out_idx) as nat;
+                let ghost dlg = self.digits_large as nat;
+//@-
+                div_rem_vartime_in_place(&mut limbs[..limb_count], &mut remain);
+//@+
+                let ghost l1 = limbs@; let ghost rem = val(remain@, 32);
+                proof {
+                    lemma_val_ext(l0.subrange(0, lc0 as int), l0, lc0);
+                    lemma_val_ext(l1.subrange(0, lc0 as int), l1, lc0);
+                    assert forall|j: int| lc0 - 31 <= j < lc0 implies l1[j].0 == 0 by { assert(l1[j] == l1.subrange(0, lc0 as int)[j]); }
+                    lemma_val_hi_zero(l1, (lc0 - 31) as nat, lc0);
+                    assert(val(l1, (lc0 - 31) as nat) * pow(r, dlg) + rem == val(l0, lc0));
+                    lemma_val_bound(l1, (lc0 - 31) as nat);
+                }
+//@-
+                limb_count = limb_count + 1 - RADIX_ENCODING_LIMBS_LARGE;
+                if limbs[limb_count - 1] == Limb::ZERO {
+//@+
+                    proof { lemma_val_step(l1, (limb_count - 1) as nat); assert(0 * bp((limb_count - 1) as nat) == 0); }
+//@-
+                    limb_count -= 1;
+                }
+                let next_idx = out_idx.saturating_sub(self.digits_large);
+//@+
+                let ghost k = (out_idx - next_idx) as nat;
+                let ghost q = val(l1, limb_count as nat);
+                proof {
+                    lemma_val_bound(l1, limb_count as nat);
+                    lemma_pow_r_pos(r, e);
+                    if out_idx > 0 { lemma_block_step(v0, r, e, val(l0, lc0), dlg, q, rem, k); }
+                    assert(remain@.len() == 32);
+                }
+//@-
+                self.encode_limbs(&mut remain, &mut out[next_idx..out_idx]);
+//@+
+                proof {
+                    let o1 = out@;
+                    assert(o1.subrange(next_idx as int, out_idx as int) == digits_fixed(rem as nat, r, k));
+                    assert(o1.subrange(out_idx as int, olen as int) =~= o0.subrange(out_idx as int, olen as int));
+                    assert(o1.subrange(next_idx as int, olen as int) =~= o1.subrange(next_idx as int, out_idx as int) + o1.subrange(out_idx as int, olen as int));
+                    assert((olen - next_idx) as nat == k + e);
+                    if out_idx == 0 { assert(o1.subrange(next_idx as int, olen as int) =~= o0.subrange(out_idx as int, olen as int)); }
+                    if next_idx > 0 { assert(k == dlg); assert((e + dlg) as nat == (olen - next_idx) as nat); }
+                }
+//@-
+                out_idx = next_idx;
+            }
+        }
+        let lshift = self.reciprocal.shift();
+        let rshift = (Limb::BITS - lshift) % Limb::BITS;
+        let mut hi = Limb::ZERO;
+        let mut digits_word;
+        let mut digit;
+//@+
+        proof { lemma_bp_succ(limb_count as nat); assert(0 * bp(limb_count as nat) == 0); assert(0 * ps == 0); }
+//@-
+        loop
+//@+
+            invariant self.wf(), r == self.radix as int, dl == self.digits_limb, d == pow(r, dl), dn == self.reciprocal.divisor_normalized as int,
+                ps == p2(self.reciprocal.shift as nat), lshift == self.reciprocal.shift, lshift < 64, rshift == (64 - lshift) % 64, radix == self.radix as u64,
+                div_limb.0 as int == d, dn == d * ps, 1 <= ps <= 35, ps < d, d < B(), dn < B(), 2 <= r <= 36, 1 <= dl <= 63,
+                limbs@.len() == len, out@.len() == olen, limb_count <= len, out_idx <= olen,
+                hi.0 as int * ps + ps <= d,
+                out@.subrange(out_idx as int, olen as int) == digits_fixed(v0, r, (olen - out_idx) as nat),
+                out_idx > 0 ==> hi.0 as int * bp(limb_count as nat) + val(limbs@, limb_count as nat) == v0 as int / pow(r, (olen - out_idx) as nat),
+            ensures out_idx == 0, out@.len() == olen, limbs@.len() == len, out@.subrange(0, olen as int) == digits_fixed(v0, r, olen)
+            decreases out_idx
+//@-
+{
+//@+
+            let ghost l1 = limbs@; let ghost lc1 = limb_count as nat; let ghost hi1 = hi.0 as int;
+            let ghost vc = hi1 * bp(lc1) + val(l1, lc1);
+            let ghost o1 = out@; let ghost idx0 = out_idx; let ghost e = (olen - out_idx) as nat;
+            proof { lemma_bp_succ(lc1); lemma_val_bound(l1, lc1); assert(hi1 * bp(lc1) >= 0) by (nonlinear_arith) requires hi1 >= 0, bp(lc1) > 0; }
+//@-
+            digits_word = if limb_count > 0 {
+                let mut carry = Limb::ZERO;
+                // If required by the reciprocal, left shift the buffer, placing the
+                // overflow into `hi`.
+                if lshift > 0 {
+//@+
+                    let ghost mut news: Seq<Limb> = Seq::empty();
+                    proof { lemma_bp_succ(0); assert(0 * bp(0) == 0); assert(0 * ps == 0); }
+//@-
+                    for limb in limbs[..limb_count].iter_mut()
+//@+
+                        invariant 0 < lshift < 64, rshift == 64 - lshift, ps == p2(lshift as nat), lc1 == limb_count, lc1 <= l1.len(),
+                            VERUS_ghost_iter.seq().len() == lc1,
+                            forall|k: int| 0 <= k < lc1 ==> *VERUS_ghost_iter.seq()[k] == l1[k],
+                            news.len() == VERUS_ghost_iter.index(),
+                            forall|k: int| 0 <= k < VERUS_ghost_iter.index() ==> *final(VERUS_ghost_iter.seq()[k]) == news[k],
+                            val(news, VERUS_ghost_iter.index() as nat) + carry.0 as int * bp(VERUS_ghost_iter.index() as nat) == val(l1, VERUS_ghost_iter.index() as nat) * ps,
+                            (carry.0 as int) < ps,
+//@-
+{
+//@+
+                        let ghost i = VERUS_ghost_iter.index() as nat;
+                        let ghost cy0 = carry.0; let ghost news0 = news; let ghost x = limb.0;
+                        assert(x == l1[i as int].0);
+//@-
+                        let (__t0, __t1) = ((*limb << lshift) | carry, *limb >> rshift); *limb = __t0; carry = __t1;
+//@+
+                        proof {
+                            news = news.push(*limb);
+                            lemma_val_ext(news0, news, i); lemma_val_step(news, i); lemma_val_step(l1, i); lemma_bp_succ(i);
+                            lemma_shl_or_step(x, cy0, lshift);
+                            let (t0, t1, pb, a) = (limb.0 as int, carry.0 as int, bp(i), val(l1, i));
+                            assert(t0 * pb + t1 * (B() * pb) == (x as int * ps + cy0 as int) * pb) by (nonlinear_arith) requires t0 + t1 * B() == x as int * ps + cy0 as int;
+                            assert((a + x as int * pb) * ps == a * ps + (x as int * ps) * pb) by (nonlinear_arith);
+                            assert((x as int * ps + cy0 as int) * pb == (x as int * ps) * pb + cy0 as int * pb) by (nonlinear_arith);
+                        }
+//@-
+                    }
+//@+
+                    let ghost t = carry.0;
+                    proof {
+                        assert(limbs@.subrange(0, lc1 as int) =~= news);
+                        lemma_val_ext(limbs@, news, lc1);
+                        lemma_hi_shl_or(hi.0, t, lshift, d);
+                    }
+//@-
+                    carry |= hi << lshift;
+                } else {
+//@+
+                    proof { lemma2_to64(); assert(hi1 * 1 == hi1); }
+//@-
+                    carry = hi;
+                }
+//@+
+                let ghost l2 = limbs@; let ghost c0 = carry.0 as int;
+                let ghost total = vc * ps;
+                let ghost mut qv: Seq<Limb> = l2;
+                proof {
+                    assert(c0 * bp(lc1) + val(l2, lc1) == total) by (nonlinear_arith)
+                        requires vc == hi1 * bp(lc1) + val(l1, lc1), lshift > 0 ==> c0 == hi1 * ps + (c0 - hi1 * ps) && val(l2, lc1) + (c0 - hi1 * ps) * bp(lc1) == val(l1, lc1) * ps,
+                            lshift == 0 ==> c0 == hi1 && ps == 1 && val(l2, lc1) == val(l1, lc1), total == vc * ps;
+                    assert(c0 < dn);
+                    lemma_tv_empty_mul2(qv, lc1, dn);
+                }
+//@-
+                // Divide in place by `radix ** digits_per_limb`
+                for limb in limbs[..limb_count].iter_mut().rev()
+//@+
+                    invariant self.wf(), dn == self.reciprocal.divisor_normalized as int, lc1 == limb_count, lc1 <= l2.len(), qv.len() == l2.len(),
+                        VERUS_ghost_iter.seq().len() == lc1,
+                        forall|k: int| 0 <= k < lc1 ==> *VERUS_ghost_iter.seq()[k] == l2[lc1 - 1 - k],
+                        forall|k: int| lc1 - VERUS_ghost_iter.index() <= k < lc1 ==> *final(VERUS_ghost_iter.seq().reverse()[k]) == #[trigger] qv[k],
+                        forall|k: int| 0 <= k < lc1 - VERUS_ghost_iter.index() ==> qv[k] == l2[k],
+                        forall|k: int| lc1 <= k < l2.len() ==> qv[k] == l2[k],
+                        (carry.0 as int) < dn,
+                        tv(qv, (lc1 - VERUS_ghost_iter.index()) as nat, lc1) * dn + carry.0 as int * bp((lc1 - VERUS_ghost_iter.index()) as nat) + val(l2, (lc1 - VERUS_ghost_iter.index()) as nat) == total,
+//@-
+{
+//@+
+                    let ghost j = (lc1 - 1 - VERUS_ghost_iter.index()) as nat;
+                    let ghost cy0 = carry.0 as int; let ghost qv0 = qv;
+                    assert(limb.0 == l2[j as int].0);
+//@-
+                    let (__t2, __t3) = div2by1(carry.0, limb.0, &self.reciprocal); limb.0 = __t2; carry.0 = __t3;
+//@+
+                    proof {
+                        qv = qv.update(j as int, *limb);
+                        lemma_divlimb_step2(qv0, qv, l2, j, lc1, dn, cy0, __t2 as int, __t3 as int, total);
+                    }
+//@-
+                }
+                // (`limb << lshift < div_limb` would drop the high bits of the limb and accept a limb that is too large)
+//@+
+                let ghost qq = val(qv, lc1);
+                proof {
+                    assert(limbs@.subrange(0, lc1 as int) =~= qv.subrange(0, lc1 as int));
+                    assert(limbs@ =~= qv);
+                    lemma_bp_succ(0);
+                    assert(carry.0 as int * bp(0) == carry.0 as int) by (nonlinear_arith) requires bp(0) == 1;
+                    assert(qq * (d * ps) + carry.0 as int == vc * ps);
+                    lemma_divlimb_final2(qq, carry.0 as int, vc, d, ps);
+                    lemma_u64_shr_div(carry.0, lshift);
+                    lemma_u64_shr_div(div_limb.0, lshift);
+                    lemma_val_step(qv, (lc1 - 1) as nat);
+                    lemma_fundamental_div_mod(d, ps); lemma_mod_bound(d, ps);
+                    let top = qv[lc1 - 1].0 as int;
+                    if top < d / ps { assert(top * ps + ps <= d) by (nonlinear_arith) requires top + 1 <= d / ps, d == ps * (d / ps) + d % ps, d % ps >= 0, ps >= 1; }
+                    assert(0 * bp(lc1) == 0); assert(0 * ps == 0);
+                }
+//@-
+                if limbs[limb_count - 1] < div_limb >> lshift {
+                    hi = limbs[limb_count - 1];
+                    limb_count -= 1;
+//@+
+                    assert(hi.0 as int * bp(limb_count as nat) + val(limbs@, limb_count as nat) == qq);
+//@-
+                } else {
+//@+
+                    assert(0 * bp(limb_count as nat) + val(limbs@, limb_count as nat) == qq);
+//@-
+                    hi = Limb::ZERO
+                }
+//@+
+                assert(hi.0 as int * bp(limb_count as nat) + val(limbs@, limb_count as nat) == qq);
+                assert(qq * d + carry.0 as int / ps == vc);
+                assert((carry.0 >> lshift) as int == carry.0 as int / ps);
+                assert(0 <= carry.0 as int / ps < d);
+                proof { lemma_val_bound(qv, lc1); }
+//@-
+                // The remainder represents a digit in base `radix ** digits_per_limb`
+                carry.0 >> lshift
+            } else {
+                // Use up the remainder in `hi`, and on any further loops continue with `0` if necessary
+//@+
+                proof { lemma_bp_succ(0); assert(hi1 * bp(0) == hi1) by (nonlinear_arith) requires bp(0) == 1; assert(0 * bp(0) == 0); assert(0 * d == 0); assert(0 * ps == 0);
+                    assert(hi1 < d) by (nonlinear_arith) requires hi1 * ps + ps <= d, ps >= 1, hi1 >= 0; }
+//@-
+                let res = hi.0;
+                hi = Limb::ZERO;
+                res
+            };
+//@+
+            let ghost dw0 = digits_word as int;
+            let ghost vn = hi.0 as int * bp(limb_count as nat) + val(limbs@, limb_count as nat);
+            assert(0 <= dw0 < d);
+            assert(vn >= 0);
+            assert(vc == vn * d + dw0);
+            let ghost tail0 = out@.subrange(idx0 as int, olen as int);
+            proof { lemma_pow_r_pos(r, 0); assert(dw0 / 1 == dw0); assert(out@.subrange(out_idx as int, idx0 as int) =~= digits_fixed(dw0 as nat, r, 0)); }
+//@-
+            // Output the individual digits
+            for _ in 0..self.digits_limb.min(out_idx)
+//@+
+                invariant 2 <= r <= 36, radix as int == r, out@.len() == olen, idx0 <= olen, dw0 >= 0,
+                    VERUS_ghost_iter.index@ <= idx0, out_idx == idx0 - VERUS_ghost_iter.index@, VERUS_ghost_iter.seq().len() <= idx0,
+                    pow(r, VERUS_ghost_iter.index@ as nat) >= 1,
+                    digits_word as int == dw0 / pow(r, VERUS_ghost_iter.index@ as nat),
+                    out@.subrange(out_idx as int, idx0 as int) == digits_fixed(dw0 as nat, r, VERUS_ghost_iter.index@ as nat),
+                    out@.subrange(idx0 as int, olen as int) == tail0,
+//@-
+{
+//@+
+                let ghost i = VERUS_ghost_iter.index@ as nat; let ghost ob = out@; let ghost dwi = digits_word;
+                proof { lemma_digits_fixed_prepend(dw0 as nat, r, i); lemma_pow_r_pos(r, i + 1); }
+//@-
+                out_idx -= 1;
+                let (__t4, __t5) = (digits_word / radix, (digits_word % radix) as u8); digits_word = __t4; digit = __t5;
+                out[out_idx] = if digit < 10 {
+                    b'0' + digit
+                } else {
+                    b'a' + (digit - 10)
+                };
+//@+
+                proof {
+                    assert(digit as int == dwi as int % r);
+                    assert(out@[out_idx as int] == digit_char(digit as int));
+                    assert(out@.subrange(out_idx as int, idx0 as int) =~= seq![digit_char(digit as int)] + ob.subrange(out_idx + 1, idx0 as int));
+                    assert(out@.subrange(idx0 as int, olen as int) =~= ob.subrange(idx0 as int, olen as int));
+                }
+//@-
+            }
+//@+
+            proof {
+                let k = (idx0 - out_idx) as nat;
+                lemma_pow_r_pos(r, e);
+                if idx0 > 0 {
+                    lemma_block_step(v0, r, e, vc, dl, vn, dw0, k);
+                    assert(out@.subrange(out_idx as int, olen as int) =~= out@.subrange(out_idx as int, idx0 as int) + tail0);
+                    assert((olen - out_idx) as nat == k + e);
+                    if out_idx > 0 { assert(k == dl); assert((e + dl) as nat == (olen - out_idx) as nat); }
+                } else {
+                    assert(out@.subrange(out_idx as int, olen as int) =~= tail0);
+                }
+            }
+//@-
+            // Finished when the buffer is full
+            if out_idx == 0 {
+                break;
+            }
+        }
+//@+
+        assert(out@ =~= out@.subrange(0, olen as int));
+//@-
+    }
 }
 //@@ end
-//@@ fn src/uint/encoding.rs | - | radix_encode_limbs_by_shifting | stub | props C17 C11
-#[verifier::external_body]
+// ---------------------------------------------------------------- power-of-two radix: encoding by shifting
+/// log2 of the power-of-two radixes
+pub open spec fn radix_log2(r: int) -> int { if r == 2 { 1 } else if r == 4 { 2 } else if r == 8 { 3 } else if r == 16 { 4 } else { 5 } }
+
+/// r = 2^bits: r^e = 2^(bits e)
+proof fn lemma_pow_r_p2(r: int, bits: nat, e: nat)
+    requires r == p2(bits)
+    ensures pow(r, e) == p2(bits * e)
+{ lemma_pow2(bits); lemma_pow_multiplies(2, bits, e); lemma_pow2(bits * e); }
+
+/// limb k of a value: (val / B^k) mod B
+proof fn lemma_val_limb(s: Seq<Limb>, k: nat, n: nat)
+    requires k <= n
+    ensures (val(s, n) / bp(k)) % B() == (if k < n { s[k as int].0 as int } else { 0 })
+{
+    let v = val(s, n);
+    lemma_bp_succ(k); lemma_val_bound(s, n);
+    if k < n {
+        lemma_val_mod(s, k, n); lemma_val_mod(s, k + 1, n); lemma_val_step(s, k);
+        lemma_breakdown(v, bp(k), B());
+        let a = (v / bp(k)) % B(); let x = s[k as int].0 as int; let p = bp(k);
+        assert(p * B() == bp(k + 1)) by (nonlinear_arith) requires bp(k + 1) == B() * p;
+        assert(a == x) by (nonlinear_arith) requires p * a == x * p, p > 0;
+    } else {
+        lemma_basic_div(v, bp(k));
+        lemma_small_mod(0, B() as nat);
+    }
+}
+
+/// consuming one limb x = limb k of v0: the pending digits dg = (v0 / 2^be) mod 2^db grow to (v0 / 2^be) mod 2^(db + 64)
+proof fn lemma_shift_item(v0: int, be: nat, db: nat, k: nat, x: int, dg: int)
+    requires v0 >= 0, be + db == 64 * k, dg == (v0 / p2(be)) % p2(db), x == (v0 / bp(k)) % B()
+    ensures dg + x * p2(db) == (v0 / p2(be)) % p2(db + 64), 0 <= dg < p2(db)
+{
+    lemma_pow2_pos(be); lemma_pow2_pos(db); lemma_pow2_64();
+    let y = v0 / p2(be);
+    lemma_div_pos_is_pos(v0, p2(be));
+    lemma_breakdown(y, p2(db), B());
+    lemma_pow2_adds(db, 64);
+    lemma_div_denominator(v0, p2(be), p2(db));
+    lemma_pow2_adds(be, db);
+    lemma_bp_pow2(k);
+    lemma_mod_bound(y, p2(db));
+    assert(p2(db) * x == x * p2(db)) by (nonlinear_arith);
+}
+
+/// emitting one digit (bits bits): dg mod 2^bits is the next digit, dg / 2^bits the pending digits of v0 / 2^(be + bits)
+proof fn lemma_shift_emit(v0: int, be: nat, db: nat, bits: nat, dg: int)
+    requires v0 >= 0, 1 <= bits <= db, dg == (v0 / p2(be)) % p2(db)
+    ensures dg % p2(bits) == (v0 / p2(be)) % p2(bits), dg / p2(bits) == (v0 / p2(be + bits)) % p2((db - bits) as nat), dg >= 0,
+        (v0 / p2(be)) / p2(bits) == v0 / p2(be + bits)
+{
+    let d2 = (db - bits) as nat;
+    lemma_pow2_pos(be); lemma_pow2_pos(bits); lemma_pow2_pos(d2);
+    let y = v0 / p2(be); let a = p2(bits); let b = p2(d2);
+    lemma_div_pos_is_pos(v0, p2(be));
+    lemma_pow2_adds(bits, d2);
+    lemma_mod_mod(y, a, b);
+    lemma_breakdown(y, a, b);
+    lemma_mod_bound(y / a, b); lemma_mod_bound(y, a);
+    lemma_fundamental_div_mod_converse(dg, a, (y / a) % b, y % a);
+    lemma_div_denominator(v0, p2(be), a);
+    lemma_pow2_adds(be, bits);
+}
+
+/// `digits | ((x as u128) << s)` with digits < 2^s is digits + x 2^s
+proof fn lemma_or_shl_u128(dg: u128, x: u64, s: u32)
+    requires s < 64, (dg as int) < p2(s as nat)
+    ensures ((dg | ((x as u128) << s)) as int) == dg as int + x as int * p2(s as nat)
+{
+    lemma_one_shl(s as u64); lemma2_to64();
+    let m = 1u64 << (s as u64);
+    let w = (x as u128) << s;
+    if s == 0 {
+        assert((0u128 | ((x as u128) << 0u32)) == x as u128) by (bit_vector);
+        assert(x as int * 1 == x as int);
+    } else {
+        lemma_limb_shl_split(x, s);
+        let lo = x << s; let hi = x >> ((64 - s) as u32);
+        assert(w as int == lo as int + hi as int * 0x1_0000_0000_0000_0000) by (bit_vector)
+            requires 0 < s < 64, w == (x as u128) << s, lo == x << s, hi == x >> ((64 - s) as u32);
+        assert((dg | w) as int == dg as int + w as int) by (bit_vector)
+            requires dg < (m as u128), w == (x as u128) << s, m == 1u64 << (s as u64), 0 < s < 64;
+    }
+}
+
+/// the digit mask and the digit shift of the power-of-two radixes
+proof fn lemma_mask_digit(dg: u128, radix: u32, mask: u8, tz: u32)
+    requires (radix == 2 && tz == 1) || (radix == 4 && tz == 2) || (radix == 8 && tz == 3) || (radix == 16 && tz == 4) || (radix == 32 && tz == 5),
+        mask == (radix - 1) as u8
+    ensures (((dg as u8) & mask) as int) == (dg as int) % (radix as int), ((dg >> tz) as int) == (dg as int) / (radix as int)
+{
+    if radix == 2 { assert((((dg as u8) & 1u8) as int) == (dg as int) % 2 && ((dg >> 1u32) as int) == (dg as int) / 2) by (bit_vector); }
+    else if radix == 4 { assert((((dg as u8) & 3u8) as int) == (dg as int) % 4 && ((dg >> 2u32) as int) == (dg as int) / 4) by (bit_vector); }
+    else if radix == 8 { assert((((dg as u8) & 7u8) as int) == (dg as int) % 8 && ((dg >> 3u32) as int) == (dg as int) / 8) by (bit_vector); }
+    else if radix == 16 { assert((((dg as u8) & 15u8) as int) == (dg as int) % 16 && ((dg >> 4u32) as int) == (dg as int) / 16) by (bit_vector); }
+    else { assert((((dg as u8) & 31u8) as int) == (dg as int) % 32 && ((dg >> 5u32) as int) == (dg as int) / 32) by (bit_vector); }
+}
+
+/// one emitted digit: buffer tail, pending digits and bit counts after the step
+proof fn lemma_shift_digit_step(v0: int, r: int, bits: nat, e: nat, be: int, db: nat, dg: int)
+    requires v0 >= 0, 2 <= r <= 36, r == p2(bits), 1 <= bits <= db, be == bits * e, dg == (v0 / p2(be as nat)) % p2(db)
+    ensures be + bits == bits * (e + 1),
+        digits_fixed(v0 as nat, r, e + 1) =~= seq![digit_char(dg % r)] + digits_fixed(v0 as nat, r, e), 0 <= dg % r < r,
+        dg / r == (v0 / p2((be + bits) as nat)) % p2((db - bits) as nat)
+{
+    assert(be + bits == bits * (e + 1)) by (nonlinear_arith) requires be == bits * e;
+    lemma_shift_emit(v0, be as nat, db, bits, dg);
+    lemma_pow_r_p2(r, bits, e);
+    lemma_digits_fixed_prepend(v0 as nat, r, e);
+}
+
+/// all limbs consumed and the buffer not yet full: the remaining high-order digits are zeros
+proof fn lemma_shift_tail(s: Seq<Limb>, len: nat, r: int, bits: nat, e: nat, be: int, db: nat, z: nat)
+    requires 2 <= r <= 36, r == p2(bits), 1 <= bits <= 5, be == bits * e, db < bits, db + be == 64 * (len + 1)
+    ensures digits_fixed(val(s, len) as nat, r, z + e) =~= digits_fixed(0, r, z) + digits_fixed(val(s, len) as nat, r, e)
+{
+    let v0 = val(s, len);
+    lemma_val_bound(s, len); lemma_bp_pow2(len);
+    lemma_pow_r_p2(r, bits, e);
+    lemma_digits_fixed_split(v0 as nat, r, z, e);
+    lemma_pow2_strictly_increases(64 * len, be as nat);
+    lemma_basic_div(v0, p2(be as nat));
+}
+//@@ fn src/uint/encoding.rs | - | radix_encode_limbs_by_shifting | body | props C17 C11
 pub fn radix_encode_limbs_by_shifting(radix: u32, limbs: &mut [Limb], out: &mut [u8])
 //@+
-    requires radix == 2 || radix == 4 || radix == 8 || radix == 16 || radix == 32, old(out)@.len() >= 1
+    requires radix == 2 || radix == 4 || radix == 8 || radix == 16 || radix == 32, old(out)@.len() >= 1,
+        64 * (old(limbs)@.len() + 1) <= radix_log2(radix as int) * old(out)@.len() + u32::MAX,   // `digits_bits` (u32) keeps growing once `out` is full
     ensures final(out)@ == digits_fixed(val(old(limbs)@, old(limbs)@.len()) as nat, radix as int, old(out)@.len()),
         final(limbs)@.len() == old(limbs)@.len()
 //@-
 {
-    unimplemented!()
+//@+
+    let ghost len = limbs@.len(); let ghost olen = out@.len(); let ghost l0 = limbs@; let ghost v0 = val(l0, len); let ghost r = radix as int;
+    proof { lemma_radix_bits(radix); lemma_val_bound(l0, len); lemma2_to64(); }
+//@-
+    debug_assert!(radix.is_power_of_two());
+    debug_assert!(!out.is_empty());
+    let radix_bits = radix.trailing_zeros();
+    let mask = (radix - 1) as u8;
+    let mut out_idx = out.len();
+    let mut digits: WideWord = 0;
+    let mut digits_bits = 0;
+    let mut digit;
+//@+
+    let ghost bits = radix_bits as nat;
+    let ghost mut be: int = 0;
+    proof {
+        assert(bits as int == radix_log2(r));
+        assert(out@.subrange(out_idx as int, olen as int) =~= digits_fixed(v0 as nat, r, 0));
+        assert(bits * 0 == 0);
+        assert((v0 / 1) % 1 == 0);
+    }
+//@-
+    {
+for limb in limbs.iter()
+//@+
+        invariant 2 <= r <= 36, r == radix as int, r == p2(bits), 1 <= bits <= 5, bits == radix_bits, radix_bits as int == radix_log2(r), mask == (radix - 1) as u8,
+            radix == 2 || radix == 4 || radix == 8 || radix == 16 || radix == 32,
+            l0.len() == len, out@.len() == olen, v0 == val(l0, len), v0 >= 0, 64 * (len + 1) <= bits * olen + u32::MAX,
+            VERUS_ghost_iter.seq().len() == len, forall|k: int| 0 <= k < len ==> *VERUS_ghost_iter.seq()[k] == l0[k],
+            out_idx <= olen, be == bits * (olen - out_idx), be >= 0,
+            digits_bits as int + be == 64 * VERUS_ghost_iter.index(),
+            out@.subrange(out_idx as int, olen as int) == digits_fixed(v0 as nat, r, (olen - out_idx) as nat),
+            out_idx > 0 ==> digits_bits < bits && digits as int == (v0 / p2(be as nat)) % p2(digits_bits as nat),
+//@-
+{
+//@+
+        let ghost k = VERUS_ghost_iter.index() as nat;
+        let ghost db0 = digits_bits as nat; let ghost dg0 = digits; let ghost x = limb.0;
+        proof {
+            assert(x == l0[k as int].0);
+            if out_idx > 0 { lemma_val_limb(l0, k, len); lemma_shift_item(v0, be as nat, db0, k, x as int, dg0 as int); lemma_or_shl_u128(dg0, x, db0 as u32); }
+        }
+//@-
+        digits_bits += Limb::BITS;
+        digits |= (limb.0 as WideWord) << (digits_bits % Limb::BITS);
+//@+
+        let ghost idx0 = out_idx; let ghost db1 = digits_bits as nat;
+        proof { lemma_fundamental_div_mod(db1 as int, bits as int); lemma_mod_bound(db1 as int, bits as int);
+            assert((db1 as int / bits as int) * bits <= db1) by (nonlinear_arith) requires db1 as int == bits as int * (db1 as int / bits as int) + db1 as int % bits as int, db1 as int % bits as int >= 0;
+            let kk = if db1 as int / bits as int <= idx0 { db1 as int / bits as int } else { idx0 as int };
+            assert(kk * bits <= db1) by (nonlinear_arith) requires 0 <= kk <= db1 as int / bits as int, (db1 as int / bits as int) * bits <= db1, bits >= 1;
+            assert(bits * 0 == 0); }
+//@-
+        for _ in 0..((digits_bits / radix_bits) as usize).min(out_idx)
+//@+
+            invariant 2 <= r <= 36, r == radix as int, r == p2(bits), 1 <= bits <= 5, bits == radix_bits, mask == (radix - 1) as u8,
+                radix == 2 || radix == 4 || radix == 8 || radix == 16 || radix == 32, radix_bits as int == radix_log2(r),
+                out@.len() == olen, v0 >= 0, idx0 <= olen,
+                VERUS_ghost_iter.seq().len() <= idx0, VERUS_ghost_iter.seq().len() * bits <= db1,
+                VERUS_ghost_iter.seq().len() == idx0 || VERUS_ghost_iter.seq().len() as int == db1 as int / bits as int,
+                VERUS_ghost_iter.index@ <= VERUS_ghost_iter.seq().len(), out_idx == idx0 - VERUS_ghost_iter.index@,
+                be == bits * (olen - out_idx), be >= 0,
+                digits_bits as int == db1 - bits * VERUS_ghost_iter.index@,
+                digits_bits as int + be == 64 * (k + 1),
+                out@.subrange(out_idx as int, olen as int) == digits_fixed(v0 as nat, r, (olen - out_idx) as nat),
+                idx0 > 0 ==> digits as int == (v0 / p2(be as nat)) % p2(digits_bits as nat),
+//@-
+{
+//@+
+            let ghost i = VERUS_ghost_iter.index@; let ghost e = (olen - out_idx) as nat; let ghost ob = out@; let ghost dg = digits; let ghost db = digits_bits as nat;
+            proof {
+                assert((i + 1) * bits <= VERUS_ghost_iter.seq().len() * bits) by (nonlinear_arith) requires i + 1 <= VERUS_ghost_iter.seq().len(), bits >= 1;
+                assert((i + 1) * bits == bits * i + bits) by (nonlinear_arith);
+                lemma_shift_digit_step(v0, r, bits, e, be, db, dg as int);
+                lemma_mask_digit(dg, radix, mask, radix_bits);
+            }
+//@-
+            out_idx -= 1;
+            let (__t0, __t1) = ((digits as u8) & mask, digits >> radix_bits); digit = __t0; digits = __t1;
+            out[out_idx] = if digit < 10 {
+                b'0' + digit
+            } else {
+                b'a' + (digit - 10)
+            };
+            digits_bits -= radix_bits;
+//@+
+            proof {
+                be = be + bits;
+                assert(out@[out_idx as int] == digit_char(digit as int));
+                assert(out@.subrange(out_idx as int, olen as int) =~= seq![digit_char(digit as int)] + ob.subrange(out_idx + 1, olen as int));
+                assert(bits * (i + 1) == bits * i + bits) by (nonlinear_arith);
+            }
+//@-
+        }
+//@+
+        proof { if out_idx > 0 { lemma_fundamental_div_mod(db1 as int, bits as int); lemma_mod_bound(db1 as int, bits as int); assert(bits * (db1 as int / bits as int) == bits as int * (db1 as int / bits as int)); } }
+//@-
+    }
+;
+{
+let limb = &Limb::ZERO;
+//@+
+        let ghost k = len;
+        let ghost db0 = digits_bits as nat; let ghost dg0 = digits; let ghost x = limb.0;
+        proof {
+            if out_idx > 0 { lemma_val_limb(l0, k, len); lemma_shift_item(v0, be as nat, db0, k, x as int, dg0 as int); lemma_or_shl_u128(dg0, x, db0 as u32); }
+        }
+//@-
+        digits_bits += Limb::BITS;
+        digits |= (limb.0 as WideWord) << (digits_bits % Limb::BITS);
+//@+
+        let ghost idx0 = out_idx; let ghost db1 = digits_bits as nat;
+        proof { lemma_fundamental_div_mod(db1 as int, bits as int); lemma_mod_bound(db1 as int, bits as int);
+            assert((db1 as int / bits as int) * bits <= db1) by (nonlinear_arith) requires db1 as int == bits as int * (db1 as int / bits as int) + db1 as int % bits as int, db1 as int % bits as int >= 0;
+            let kk = if db1 as int / bits as int <= idx0 { db1 as int / bits as int } else { idx0 as int };
+            assert(kk * bits <= db1) by (nonlinear_arith) requires 0 <= kk <= db1 as int / bits as int, (db1 as int / bits as int) * bits <= db1, bits >= 1;
+            assert(bits * 0 == 0); }
+//@-
+        for _ in 0..((digits_bits / radix_bits) as usize).min(out_idx)
+//@+
+            invariant 2 <= r <= 36, r == radix as int, r == p2(bits), 1 <= bits <= 5, bits == radix_bits, mask == (radix - 1) as u8,
+                radix == 2 || radix == 4 || radix == 8 || radix == 16 || radix == 32, radix_bits as int == radix_log2(r),
+                out@.len() == olen, v0 >= 0, idx0 <= olen,
+                VERUS_ghost_iter.seq().len() <= idx0, VERUS_ghost_iter.seq().len() * bits <= db1,
+                VERUS_ghost_iter.seq().len() == idx0 || VERUS_ghost_iter.seq().len() as int == db1 as int / bits as int,
+                VERUS_ghost_iter.index@ <= VERUS_ghost_iter.seq().len(), out_idx == idx0 - VERUS_ghost_iter.index@,
+                be == bits * (olen - out_idx), be >= 0,
+                digits_bits as int == db1 - bits * VERUS_ghost_iter.index@,
+                digits_bits as int + be == 64 * (k + 1),
+                out@.subrange(out_idx as int, olen as int) == digits_fixed(v0 as nat, r, (olen - out_idx) as nat),
+                idx0 > 0 ==> digits as int == (v0 / p2(be as nat)) % p2(digits_bits as nat),
+//@-
+{
+//@+
+            let ghost i = VERUS_ghost_iter.index@; let ghost e = (olen - out_idx) as nat; let ghost ob = out@; let ghost dg = digits; let ghost db = digits_bits as nat;
+            proof {
+                assert((i + 1) * bits <= VERUS_ghost_iter.seq().len() * bits) by (nonlinear_arith) requires i + 1 <= VERUS_ghost_iter.seq().len(), bits >= 1;
+                assert((i + 1) * bits == bits * i + bits) by (nonlinear_arith);
+                lemma_shift_digit_step(v0, r, bits, e, be, db, dg as int);
+                lemma_mask_digit(dg, radix, mask, radix_bits);
+            }
+//@-
+            out_idx -= 1;
+            let (__t2, __t3) = ((digits as u8) & mask, digits >> radix_bits); digit = __t2; digits = __t3;
+            out[out_idx] = if digit < 10 {
+                b'0' + digit
+            } else {
+                b'a' + (digit - 10)
+            };
+            digits_bits -= radix_bits;
+//@+
+            proof {
+                be = be + bits;
+                assert(out@[out_idx as int] == digit_char(digit as int));
+                assert(out@.subrange(out_idx as int, olen as int) =~= seq![digit_char(digit as int)] + ob.subrange(out_idx + 1, olen as int));
+                assert(bits * (i + 1) == bits * i + bits) by (nonlinear_arith);
+            }
+//@-
+        }
+//@+
+        proof { if out_idx > 0 { lemma_fundamental_div_mod(db1 as int, bits as int); lemma_mod_bound(db1 as int, bits as int); assert(bits * (db1 as int / bits as int) == bits as int * (db1 as int / bits as int)); } }
+//@-
+    }
+}
+//@+
+    let ghost o1 = out@; let ghost e = (olen - out_idx) as nat;
+    proof {
+        if out_idx > 0 { lemma_shift_tail(l0, len, r, bits, e, be, digits_bits as nat, out_idx as nat); }
+        lemma_digits_fixed_zero(r, out_idx as nat);
+    }
+//@-
+    out[0..out_idx].fill(b'0');
+//@+
+    assert(out@ =~= digits_fixed(0, r, out_idx as nat) + o1.subrange(out_idx as int, olen as int));
+    assert((out_idx + e) as nat == olen);
+    assert(out_idx == 0 ==> digits_fixed(0, r, out_idx as nat) + o1.subrange(out_idx as int, olen as int) =~= digits_fixed(v0 as nat, r, olen));
+//@-
 }
 //@@ end
 // ---- library functions without a vstd specification (assumed)
@@ -362,7 +1158,7 @@ pub proof fn lemma_pow_base_mono(a: int, b: int, n: nat)
 /// the buffer of a power-of-two radix 2^bits is large enough: (2^bits)^ceil(64 len / bits) >= B^len
 pub proof fn lemma_size_pow2(r: int, bits: nat, len: nat, size: nat)
     requires 1 <= bits <= 5, r == pow2(bits), size as int == (64 * len + bits - 1) / (bits as int)
-    ensures pow(r, size) >= bp(len), len >= 1 ==> size >= 1
+    ensures pow(r, size) >= bp(len), len >= 1 ==> size >= 1, bits * size >= 64 * len
 {
     lemma_pow2(bits); lemma_pow_multiplies(2, bits, size);
     lemma_fundamental_div_mod(64 * len + bits - 1, bits as int);
@@ -495,7 +1291,7 @@ pub fn radix_encode_limbs_mut_to_string(radix: u32, limbs: &mut [Limb]) -> (ret_
 //@-
         let size = (limbs.len() * Limb::BITS as usize).div_ceil(bits);
 //@+
-        proof { lemma_size_pow2(r, bits as nat, len, size as nat); }
+        proof { lemma_size_pow2(r, bits as nat, len, size as nat); assert(bits as int == radix_log2(r)) by { lemma2_to64(); } }
 //@-
         out = vec![0u8; size];
         radix_encode_limbs_by_shifting(radix, limbs, vec_all_mut(&mut out));
